@@ -4,8 +4,8 @@ from __future__ import annotations
 import typed
 
 ID = "C09"
-THEOREMS = ["follow_writer", "follow_appends", "follow_effects_appended", "follow_error_independent", "followL_appends", "no_callback_no_effect", "callback_effect", "class_before_method"]
-LEANCHECKER_MODULES = ["Fadl.Props.C09Writer", "Fadl.Props.C09"]  # re-checked by leanchecker in the thorough tier
+THEOREMS = ["follow_effSound", "follow_effects_are_declared", "streamOp_effects_are_declared", "methodEff_order", "cbEff_log", "cbEff_md", "follow_writer", "follow_appends", "follow_effects_appended", "follow_error_independent", "followL_appends", "no_callback_no_effect", "callback_effect", "class_before_method"]
+LEANCHECKER_MODULES = ["Fadl.Props.C09Sound", "Fadl.Props.C09Writer", "Fadl.Props.C09"]  # re-checked by leanchecker in the thorough tier
 RULE = (
     "generated class models (gen/classes.py: Trk, Cal, Jet, Vec[T](Iterable[T]), JVec(Vec[Jet]), Evt, an optional registered "
     "collection class, two registered functions; 0-4 parameters per method with a random suffix of defaults of int/float/"
@@ -16,21 +16,29 @@ RULE = (
     "non-trivial = every case; distinct = distinct (class model, operator, lambda source)"
 )
 EXPLANATION = (
-    "Main theorem follow_writer (Props/C09Writer.lean; induction over the fuel through all five mutually recursive functions of "
-    "the follower model: follow, followL, methodCall, candLoop, onStreamObj): the follower is a WRITER - for every class model, "
-    "scope and expression, following from a stream state with MetaData list dm ++ m and callback log dl ++ l gives exactly the "
-    "result of following from (m, l) with dm / dl put in front (same rewritten expression, same type, same failure). Hence "
-    "follow_appends / follow_effects_appended: what an expression contributes (MetaData dictionaries, log entries, in order) is a "
-    "function of the expression alone and is appended to whatever earlier call sites attached - nothing is dropped, duplicated or "
-    "reordered, also through nested collection lambdas (where the model restarts the MetaData list and re-attaches it) and through "
-    "the receiver being re-visited for its type; follow_error_independent: a refusal does not depend on earlier effects; "
-    "followL_appends: arguments contribute left to right. Local laws: callback_effect (one log entry, MetaData appended, returned "
-    "call site passed on), class_before_method, no_callback_no_effect. Correspondence: as C07 (callback log and MetaData list are "
-    "part of the compared observation). Oracle: real callbacks that log (tag, call-site text) and attach tagged MetaData; the "
-    "generator predicts the exact log (post-order of typed call sites: receiver, arguments, then the site itself, class-level "
-    "before method-level, class-level callbacks inherited along the class chain; nothing for absent sites), the MetaData chain on "
-    "args[0] of the resulting query upstream of the operator, and the rewritten call sites. PARTIAL: the list of sites itself is "
-    "predicted by the generator, not derived from a declarative relation in Lean."
+    "Main theorem follow_effSound (Props/C09Sound.lean; induction over the fuel through all five mutually recursive functions of "
+    "the follower model, using the C08 soundness theorem for receiver types): for EVERY class model, environment, stream state and "
+    "expression, whenever the follower accepts the expression, the MetaData list and the callback log it returns are the ones it "
+    "started from followed by effOf of the expression THE USER WROTE. effOf (Model/EffectSpec.lean) is the specification: from the "
+    "declarations (which classes, methods, functions and parameterized properties carry a callback; tag and MetaData of each) it "
+    "lists the callback sites of an expression in visiting order - callee expression, positional arguments, keyword values, then "
+    "the call itself: for a method call the sites inside the lambda of a collection operator, then the class-level callback of "
+    "the deciding candidate's class (its own or the nearest inherited one), then the method-level callback (methodEff_order); a "
+    "registered function's callback; a parameterized property's callback; the body of an immediately called lambda; a lambda that "
+    "is neither called nor a collection operator's argument contributes nothing. So every declared site fires exactly once, in "
+    "that order, class-level before method-level, its MetaData is attached (cbEff_md), and nothing else fires. Corollaries: "
+    "follow_effects_are_declared, streamOp_effects_are_declared (the effects Select / SelectMany / Where record = streamOpEff). "
+    "Direction proved: follower accepts => effects are the declared ones (a refused lambda records nothing: the operator raises). "
+    "The specification is also executed against the implementation: for every generated lambda the implementation accepts, the "
+    "MetaData chain on the source and the list of callbacks that fired must equal streamOpEff on the lambda as written (unit "
+    "streamOpEff(spec); counted as spec:callback-sites-compared / -nonempty in the distribution). "
+    "Writer theorem follow_writer (Props/C09Writer.lean): following from a state with prefixes dm / dl gives the result of "
+    "following without them with dm / dl in front (same expression, type, failure); follow_appends, follow_effects_appended, "
+    "follow_error_independent, followL_appends. Local laws: callback_effect, class_before_method, no_callback_no_effect. "
+    "Correspondence: as C07 (callback log and MetaData list are part of the compared observation). Oracle: real callbacks that log "
+    "(tag, call-site text) and attach tagged MetaData; the generator predicts the exact log, the MetaData chain on args[0] of the "
+    "resulting query upstream of the operator, and the rewritten call sites. Not modelled: what an arbitrary callback body does "
+    "beyond attaching MetaData, renaming and appending an argument (CbSpec)."
 )
 ASSUMPTIONS = ['callbacks are described by what they do (attach MetaData, rename, append an argument)']
 
